@@ -23,6 +23,23 @@ impl<'a> Verifier<'a> {
       return Err(Error::PieceLengthZero);
     }
 
+    if let Mode::Multiple { files } = &metainfo.info.mode {
+      for file in files {
+        for component in file.path.components() {
+          let mut parsed = Path::new(component).components();
+          match (parsed.next(), parsed.next()) {
+            (Some(path::Component::Normal(normal)), None) if normal == OsStr::new(component) => {}
+            _ => {
+              return Err(Error::PathComponent {
+                path: file.path.to_string().into(),
+                component: component.into(),
+              })
+            }
+          }
+        }
+      }
+    }
+
     Ok(Verifier {
       buffer: vec![0; piece_length],
       piece_bytes_hashed: 0,
